@@ -293,6 +293,36 @@ def benign(pid, op, impl, model):
     C02 (soundness of is_subset): the theorem is `model answers true ⇒ inclusion holds`; it transfers to the
     code whenever `code answers true ⇒ model answers true`, so a code that is merely more conservative than
     the model (false where the model says true) is not a broken correspondence for C02."""
+    if pid in ("C13", "C14", "C15", "C16"):
+        f = op.split("\t")
+        if f[0] in ("compile", "p_c16"):
+            # which shape inference gives to the sources (and whether it accepts them) is the subject of
+            # C01/C04/C17; the generator's text for the shape the *code* inferred is compared separately
+            # (operation `gen <that shape>`, see external_ops)
+            return not (impl.startswith("violated") or impl in ("panic", "timeout", "crash"))
+        if f[0] in ("gen", "genx"):
+            try:
+                ti, tm = bytes.fromhex(impl).decode(), bytes.fromhex(model).decode()
+            except ValueError:
+                return False
+            pi, pm = gen_projection(pid, f[1], ti), gen_projection(pid, f[1], tm)
+            if pi is None or pm is None:
+                return False
+            if pid == "C15" and pi == ("does-not-compile",):
+                return True                     # C15 quantifies over modules that compile (C13 decides that)
+            if pid == "C16":
+                # names agree wherever both texts name the same sub-shape
+                di, dm = dict(pi[1]), dict(pm[1])
+                return all(di[k] == dm[k] for k in di if k in dm) and bool(set(di) & set(dm) or not di or not dm)
+            return pi == pm
+    if pid == "C05":
+        # C05's theorems say the model never panics and its work is bounded; they transfer to the code when
+        # `code panics/hangs ⇒ model panics`. A difference in *which* answer is returned (accept/reject, shape,
+        # error kind) is C04's and C17's subject; range faithfulness is checked on the code's own answers.
+        f = op.split("\t", 1)[0]
+        if f in ("inferdoc", "inferv", "lex", "cst", "sourcesdoc", "supersetchk", "superset") \
+                and impl not in ("panic", "timeout", "crash") and model != "panic":
+            return True
     if pid == "C02":
         f = op.split("\t", 1)[0]
         if f in ("subset", "superset") and impl == "false" and model == "true":
@@ -438,6 +468,24 @@ def direct_oracle(pid, ops, impl):
                                   "why": "parse error range/fragment not faithful"})
     if pid == "C12":
         import math
+        import json as _json
+
+        def nodes(v):
+            if isinstance(v, list):
+                return 1 + sum(nodes(x) for x in v)
+            if isinstance(v, dict):
+                return 1 + sum(nodes(x) for x in v.values())
+            return 1
+        for o, r in zip(ops, impl):
+            f = o.split("\t")
+            if f[0] in ("ticks_infer", "ticks_inferv") and r.isdigit():
+                try:
+                    n = nodes(_json.loads(bytes.fromhex(f[1]).decode()))
+                except Exception:
+                    continue
+                if int(r) > 8 * n * n + 8:
+                    fails.append({"op": o, "impl": r, "expected": f"at most 8*{n}^2+8 conversions for a document of {n} nodes",
+                                  "why": "the number of recursive conversions is not bounded by a low-degree polynomial of the input size (proved bound for the model: one per node)"})
         fam = {}
         for o, r in zip(ops, impl):
             f = o.split("\t")
@@ -609,6 +657,26 @@ def name_pairs(sx, items):
     return pairs
 
 
+def gen_projection(pid, sx, text):
+    """What the theorems of `pid` say about a generated text; two texts with the same projection are
+    interchangeable for that property. None = no projection (compare the texts themselves)."""
+    import rustitems as R
+    items, probs = c13_problems(text)
+    if items is None:
+        return None
+    if pid == "C13":
+        # defined_once speaks about the defined names; the rest of C13 is decided on the code's own text
+        return None if probs else ("names", tuple(it[1] for it in items))
+    if pid in ("C14", "C15"):
+        if probs:
+            return ("does-not-compile",) if pid == "C15" else None
+        back = R.decode(items)
+        return None if back is None else ("reads-back", R.canon(back, True), items[0][0] == "alias")
+    if pid == "C16":
+        return ("names", tuple(sorted(set(name_pairs(sx, items)))))
+    return None
+
+
 def gen_oracle(pid, ops, impl):
     import re
     import rustitems as R
@@ -665,8 +733,17 @@ def gen_oracle(pid, ops, impl):
 def external_ops(pid, ops, impl, tier):
     """Operations answered by an external oracle (rustc + the real serde over batches of generated
     modules): (ops, implementation results, expectations, failures)."""
-    if pid not in ("C13", "C15"):
+    if pid not in ("C13", "C14", "C15", "C16"):
         return [], [], [], []
+    g_ops, g_impl = [], []
+    seen = set()
+    for j, o, sx, text, srcs in gen_cases(ops, impl):
+        if srcs is not None and sx not in seen:
+            seen.add(sx)
+            g_ops.append("genx\t" + sx)            # the generator's text for the shape the code inferred
+            g_impl.append(text.encode().hex())
+    if pid not in ("C13", "C15"):
+        return g_ops, g_impl, [None] * len(g_ops), []
     import rustbatch
     import rustitems as R
     limit = 600 if tier == "thorough" else 60
@@ -700,7 +777,7 @@ def external_ops(pid, ops, impl, tier):
                         x_ops.append(f"derive_rt\t{sx}\t{h}")
                         x_impl.append("true" if verdict == "ok" else "false")
                         x_exp.append("true")
-    return x_ops, x_impl, x_exp, fails
+    return g_ops + x_ops, g_impl + x_impl, [None] * len(g_ops) + x_exp, fails
 
 
 def oracle_ok(got, want):
